@@ -5,6 +5,7 @@ use serde_json::{json, Value};
 
 pub mod c01;
 pub mod c02;
+pub mod c04;
 pub mod c13;
 pub mod libx;
 pub mod sigh;
@@ -22,6 +23,7 @@ pub fn lookup(id: &str) -> Option<Prop> {
         "C01" => c01::PROP,
         "C02" => c02::PROP,
         "C03" => sigh::PROP_C03,
+        "C04" => c04::PROP,
         "C10" => sigh::PROP_C10,
         "C13" => c13::PROP,
         _ => return None,
